@@ -55,7 +55,7 @@ theorem settleConnect_idx (s : Sys) (cslot : Nat) (c : Connecting) (k : Kernel) 
   split
   · exact (hs.setKernel _ hk).congr rfl
   · exact (hs.setKernel _ hk).congr rfl
-  · exact (hs.setKernel _ (hk.close _)).congr rfl
+  · exact (hs.setKernel _ (hk.close _ _)).congr rfl
 
 theorem step_idx (s : Sys) (op : Op) (hs : SIdx s) : SIdx (s.step op).1 := by
   cases op with
@@ -71,7 +71,7 @@ theorem step_idx (s : Sys) (op : Op) (hs : SIdx s) : SIdx (s.step op).1 := by
     rw [Sys.step]
     split
     · exact hs
-    · exact (hs.setKernel _ ((hs.kernel _).close _)).congr rfl
+    · exact (hs.setKernel _ ((hs.kernel _).close _ _)).congr rfl
   | connect h cslot sslot peer =>
     rw [Sys.step]
     try dsimp only
@@ -86,7 +86,7 @@ theorem step_idx (s : Sys) (op : Op) (hs : SIdx s) : SIdx (s.step op).1 := by
     rw [Sys.step]
     split
     · exact hs
-    · exact (hs.setKernel _ ((hs.kernel _).close _)).congr rfl
+    · exact (hs.setKernel _ ((hs.kernel _).close _ _)).congr rfl
   | accept lslot sslot =>
     rw [Sys.step]
     split
@@ -124,7 +124,7 @@ theorem step_idx (s : Sys) (op : Op) (hs : SIdx s) : SIdx (s.step op).1 := by
     rw [Sys.step]
     split
     · exact hs
-    · exact (hs.setKernel _ ((hs.kernel _).close _)).congr rfl
+    · exact (hs.setKernel _ ((hs.kernel _).close _ _)).congr rfl
   | udpBind h uslot addr =>
     rw [Sys.step]
     have hb := (hs.kernel h).kbind addr true
